@@ -46,7 +46,7 @@ inline cd lehmann_chi(const CMat& A, const CMat& B, const RVec& E, const RVec& w
         cd ab = A(n, m) * B(m, n);
         if (ab == cd(0, 0)) continue;
         double P = E(m) - E(n);
-        if (W == 0.0) g += ab * w(n) * beta * phi1(-beta * P);          // w_n (1-e^{-beta P})/P
+        if (W == 0.0) g += (std::abs(beta * P) < 1e-3) ? ab * w(n) * beta * phi1(-beta * P) : ab * (w(n) - w(m)) / P;   // w_n (1-e^{-beta P})/P
         else g += ab * (w(m) - w(n)) / (cd(0, W) - P);
     }
     return g;
